@@ -285,8 +285,8 @@ struct World
   int burst_budget{0};
   bool idle_seen{false};
   long polls{0};
-  long yields[6]{0, 0, 0, 0, 0, 0};
-  long bursts_at[6]{0, 0, 0, 0, 0, 0};
+  long yields[7]{0, 0, 0, 0, 0, 0, 0};
+  long bursts_at[7]{0, 0, 0, 0, 0, 0, 0};
   bool draining{false};
   int cur_point{0};
   int force_pair_at_y2_hit{0}; // C05: run the pair-then-tick composite at the k-th queue visit of the next poll
